@@ -658,6 +658,9 @@ def corner_trees():
                   args=[_arg("first", A_REQUIRED)],
                   subs=[_cmd("l2", opts=[_opt("ee", "e", O_MULTI, default=["x", "y"])], args=[_arg("second")],
                              subs=[_cmd("l3", opts=[_opt("ff", "f", O_REQ | 512, default=3)], args=[_arg("rest", A_MULTI, default=["r"])])])])]),
+        # a sub-command that is itself called like the help command, next to an ordinary one
+        app([_cmd("config", subs=[_cmd("get", args=[_arg("key")]), _cmd("help", args=[_arg("topic")]),
+                                  _cmd("deep", subs=[_cmd("help", opts=[_opt("hh", "k")])])])]),
         # elements without description (and nothing else special)
         app([_cmd("plain", opts=[_opt("nodesc", "x", desc=None)], args=[_arg("noarg", desc=None)])]),
     ]
